@@ -271,8 +271,11 @@ class patched_serial:
 class TcpFront:
     """Loopback TCP server bridging one client connection to a Firmware."""
 
-    def __init__(self, fw):
+    def __init__(self, fw, split=None):
         self.fw = fw
+        # split: None | callable(bytes) -> list of pieces sent as separate
+        # packets (TCP_NODELAY, a pause between them)
+        self.split = split
         self.srv = socket.socket(socket.AF_INET, socket.SOCK_STREAM)
         self.srv.setsockopt(socket.SOL_SOCKET, socket.SO_REUSEADDR, 1)
         self.srv.bind(("127.0.0.1", 0))
@@ -301,7 +304,13 @@ class TcpFront:
                 break
             if out:
                 try:
-                    conn.sendall(out)
+                    if self.split is None:
+                        conn.sendall(out)
+                    else:
+                        for piece in self.split(out):
+                            if piece:
+                                conn.sendall(piece)
+                                time.sleep(0.004)
                 except OSError:
                     break
             try:
